@@ -30,7 +30,17 @@ Notation oid := nat (only parsing).
     that calls [repr(value)] itself and wraps the result as [tok(<inner>)]. *)
 Inductive rmode := RTrue | RFalse | RLeaf (tok : string) | RWrap (tok : string).
 
-Record field := F { f_name : string; f_repr : rmode; f_init : bool }.
+Record field := FT {
+  f_name : string;
+  f_repr : rmode;
+  f_init : bool;
+  f_truthy : bool   (* [bool(a.repr)] of the object passed as [repr=]: a callable object may be falsy
+                       (empty callable dict subclass, [__bool__] returning False).  The generated code
+                       tests [a.repr is not False], never truthiness: nothing below reads this field. *)
+}.
+
+(** A field whose [repr=] object is truthy (True, every function / lambda / class). *)
+Definition F (n : string) (r : rmode) (i : bool) : field := FT n r i true.
 
 Inductive obj :=
 | OI (qualname : string)             (* type(self).__qualname__ : the RUNTIME class *)
